@@ -189,7 +189,7 @@ func (d SrcDesc) build() Src1 {
 		s.PIn = &SInner{S: d.PInS, N: 9}
 	}
 	if !d.MNil {
-		s.M = map[string]any{"j": "jv"}
+		s.M = map[string]any{"j": "jv", "": "emptykey"} // the empty string is a map key like any other
 		switch d.MK {
 		case "s":
 			s.M["k"] = "kv"
@@ -220,7 +220,7 @@ func (d SrcDesc) build() Src1 {
 
 func (d SrcDesc) buildMap() map[string]any {
 	s := d.build()
-	m := map[string]any{"A": s.A, "B": s.B, "In": s.In, "M": s.M, "Any": s.Any, "nest": map[string]any{"j": "nj", "k": map[string]any{"j": "nkj"}}}
+	m := map[string]any{"A": s.A, "B": s.B, "In": s.In, "M": s.M, "Any": s.Any, "nest": map[string]any{"j": "nj", "k": map[string]any{"j": "nkj"}, "": map[string]any{"j": "nej"}}}
 	if s.PIn != nil {
 		m["PIn"] = s.PIn
 	}
@@ -248,10 +248,10 @@ type CaseC15 struct {
 	SuccOK bool `json:"succok,omitempty"`
 }
 
-var fromStruct = [][]string{nil, {"A"}, {"B"}, {"In"}, {"In", "S"}, {"In", "N"}, {"PIn"}, {"PIn", "S"}, {"M"}, {"M", "k"}, {"M", "j"}, {"M", "k", "j"}, {"M", "k", "S"}, {"MS"}, {"MS", "k"}, {"Any"}, {"Any", "S"}, {"Any", "k"}, {"L"}, {"Zz"}, {"hidden"}}
-var fromMap = [][]string{nil, {"A"}, {"B"}, {"In"}, {"In", "S"}, {"PIn", "S"}, {"M"}, {"M", "k"}, {"Any"}, {"Any", "S"}, {"nest"}, {"nest", "j"}, {"nest", "k", "j"}, {"zz"}}
-var toStruct = [][]string{nil, {"X"}, {"Y"}, {"In"}, {"In", "S"}, {"In", "N"}, {"In", "Any"}, {"In", "Any", "k"}, {"PIn"}, {"PIn", "S"}, {"M"}, {"M", "k"}, {"M", "k", "j"}, {"MS"}, {"MS", "k"}, {"Hole"}, {"Hole", "k"}, {"Hole", "k", "j"}, {"Hole", "k", "i"}, {"Hole", "h", "j"}, {"In", "Any", "k", "j"}, {"In", "Any", "h", "j"}, {"L"}, {"MI", "k"}, {"MI", "k", "S"}, {"MP", "k"}, {"MP", "k", "S"}, {"Qq"}, {"secret"}}
-var toMap = [][]string{nil, {"x"}, {"x", "y"}, {"x", "y", "z"}, {"x", "q", "z"}, {"x", "y", "r"}, {"w"}, {"v", "u"}}
+var fromStruct = [][]string{nil, {"A"}, {"B"}, {"In"}, {"In", "S"}, {"In", "N"}, {"PIn"}, {"PIn", "S"}, {"M"}, {"M", "k"}, {"M", "j"}, {"M", "k", "j"}, {"M", "k", "S"}, {"MS"}, {"MS", "k"}, {"Any"}, {"Any", "S"}, {"Any", "k"}, {"L"}, {"Zz"}, {"hidden"}, {"M", ""}}
+var fromMap = [][]string{nil, {"A"}, {"B"}, {"In"}, {"In", "S"}, {"PIn", "S"}, {"M"}, {"M", "k"}, {"Any"}, {"Any", "S"}, {"nest"}, {"nest", "j"}, {"nest", "k", "j"}, {"zz"}, {"nest", ""}, {"nest", "", "j"}, {"M", ""}}
+var toStruct = [][]string{nil, {"X"}, {"Y"}, {"In"}, {"In", "S"}, {"In", "N"}, {"In", "Any"}, {"In", "Any", "k"}, {"PIn"}, {"PIn", "S"}, {"M"}, {"M", "k"}, {"M", "k", "j"}, {"MS"}, {"MS", "k"}, {"Hole"}, {"Hole", "k"}, {"Hole", "k", "j"}, {"Hole", "k", "i"}, {"Hole", "h", "j"}, {"In", "Any", "k", "j"}, {"In", "Any", "h", "j"}, {"L"}, {"MI", "k"}, {"MI", "k", "S"}, {"MP", "k"}, {"MP", "k", "S"}, {"Qq"}, {"secret"}, {"M", ""}, {"MS", ""}, {"Hole", "", "j"}, {"M", "", "j"}}
+var toMap = [][]string{nil, {"x"}, {"x", "y"}, {"x", "y", "z"}, {"x", "q", "z"}, {"x", "y", "r"}, {"w"}, {"v", "u"}, {"x", ""}, {"", "y"}, {"x", "", "z"}}
 
 // siblings: pairs of target paths that pass through the same interface-typed position and go on for at least
 // two more elements without overlapping (two mappings must then build one shared map between them)
